@@ -35,6 +35,12 @@ def main():
                                note="the verification build itself failed"), no_input=True)
             return rep.finish()
         mod = importlib.import_module(f"props.{pid.lower()}")
+        try:
+            md = {}
+            exec(open(core.VERIF / "harness" / "manifest_data.py").read(), md)
+            rep.assumptions = list(md.get("ASSUMPTIONS", {}).get(pid, []))
+        except Exception:
+            pass
         if args.replay:
             return mod.replay(json.load(open(args.replay)))
         rep.clean_old_replays()
